@@ -363,7 +363,19 @@ def _classify_pair_copy(chk, f, d, what):
             if a and render(a[0]) == src + ".constraint_":
                 okc = True
     cfg = f.cfg
-    uncond = all(cfg.stmt_block(n) in cfg.pdom.get(cfg.entry, set()) for n in v + c)
+    # unconditional, except for the self-assignment test 'if (this == &src) return *this;'
+    selfret = set()
+    for b_ in cfg.blocks:
+        for s_ in cfg.succ[b_]:
+            if any("this" in t_ and "&" in t_ and (("==" in t_ and tr_) or ("!=" in t_ and tr_ is False)) for t_, tr_, _ in e1.edge_facts(cfg, b_, s_)):
+                selfret.add((b_, s_))
+
+    class _V:
+        pass
+    view = _V()
+    view.entry, view.exit, view.blocks, view.is_throw_block = cfg.entry, cfg.exit, cfg.blocks, cfg.is_throw_block
+    view.succ = {b_: [s_ for s_ in cfg.succ[b_] if (b_, s_) not in selfret] for b_ in cfg.succ}
+    uncond = all(e1.must_pass(view, {cfg.stmt_block(n)})[0] for n in v + c)
     if okv and okc and uncond and len(v) == 1 and len(c) == 1:
         chk.proved("D1", f.key, "pair-copy", f.loc(), "value_ and constraint_ both assigned unconditionally from '%s'" % src)
     else:
@@ -420,7 +432,10 @@ def _classify_constraint_store(chk, fb, f, n, kind):
     if a and e1._is_null(strip(a[0])) or (a and strip(a[0])["k"] == "CXXConstructExpr" and all(e1._is_null(strip(x)) for x in kids(strip(a[0])))):
         chk.proved("D1", f.key, "null-install", f.loc(n), "constraint removed")
         return
-    c = render(a[0]) if a else "?"
+    a0 = strip(a[0]) if a else None
+    if a0 is not None and is_call(a0) and a0["callee"]["name"] in ("move", "forward") and f.args(a0):
+        a0 = strip(f.args(a0)[0])       # constraint_ = std::move(c) installs c
+    c = render(a0) if a0 is not None else "?"
     blk = cfg.stmt_block(n)
 
     def est(facts):
